@@ -118,6 +118,44 @@ def make_replay(setup, call, clauses, allow_exc=()):
     return replay
 
 
+def native_sampling(setup, call, clauses, allow_exc=(), n=300, seed=12345):
+    """Run the harness natively on sampled inputs; return the first clause failure found (or None)."""
+    import random
+    from .install import native
+    from .sym import SamplingCtx
+    rng = random.Random(seed)
+    with native():
+        for _ in range(n):
+            cc = SamplingCtx(rng)
+            with activate(cc):
+                try:
+                    ns = setup(cc)
+                except Exception:
+                    continue
+                if cc.failed_assumptions:
+                    continue
+                try:
+                    res, outcome = call(ns), "ret"
+                except Exception as e:
+                    res, outcome = e, "exc"
+                for cl in clauses:
+                    try:
+                        if cl.kind == "post" and outcome == "ret":
+                            if not bool(cl.fn(ns, res)):
+                                return {"clause": cl.name, "inputs": dict(cc.chosen), "native_outcome": "returned"}
+                        elif cl.kind == "raises":
+                            cond = bool(cl.fn(ns))
+                            raised = outcome == "exc" and isinstance(res, cl.exc)
+                            if cond != raised and (outcome == "ret" or raised):
+                                return {"clause": cl.name, "inputs": dict(cc.chosen), "native_outcome": str(res)[:200]}
+                        elif cl.kind == "always_raises":
+                            if not (outcome == "exc" and isinstance(res, cl.exc)):
+                                return {"clause": cl.name, "inputs": dict(cc.chosen), "native_outcome": "returned" if outcome == "ret" else str(res)[:200]}
+                    except Exception:
+                        continue
+    return None
+
+
 def check_function(function, setup, call, clauses, *, mode, label="", bounded=False,
                    replay="auto", pre=(), max_paths=4096, allow_exc=(), z3_ms=None,
                    timeout_ms=10000):
@@ -152,8 +190,18 @@ def check_function(function, setup, call, clauses, *, mode, label="", bounded=Fa
     for p in paths:
         plabel = (label + "," if label else "") + f"path={p.index}"
         if p.outcome == "unsupported":
-            out.append(ob(function, "exploration", plabel, "undecided", mode=mode, bounded=bounded,
-                          reason=f"out of reach: {p.value}", path=p.cond_str()))
+            # DESIGN 2.6: concretise and run natively; a clause broken natively is a violation with a
+            # failing input, otherwise the path stays undecided (never counted as discharged)
+            hit = native_sampling(setup, call, clauses, allow_exc) if not holder.get("sampled") else None
+            holder["sampled"] = True
+            if hit:
+                out.append(ob(function, hit["clause"], plabel + ",native-fallback", "violated", mode=mode, bounded=True,
+                              reason=f"path out of symbolic reach ({p.value}); clause fails natively on a sampled input",
+                              path=p.cond_str(), model={k: str(v) for k, v in hit["inputs"].items()},
+                              replayed=dict(hit, confirmed=True), backend="native", seconds=0.0))
+            else:
+                out.append(ob(function, "exploration", plabel, "undecided", mode=mode, bounded=bounded,
+                              reason=f"out of reach: {p.value}", path=p.cond_str()))
             continue
         hyps = list(pre) + list(p.conds) + list(p.axioms)
         hyps = [to_z3_bool(h) for h in hyps]
